@@ -827,6 +827,14 @@ def check_C01(tier):
     # entries - C03's known finding - so they are recomputed: the answers must still be right)
     scenario_random(run, ALLALG, ['std', 'safe'], ['dir', 'direct-dir', 'file', 'dictarch'], 600 if t else 100, 30 if t else 22,
                     variants=('long',), keymaps=[('raw', True, False), ('str', True, False), ('pickle-repr', True, False), ('hash-md5', True, False)])
+    # callables and keys of other kinds: a builtin without signature (getattr over a probe object), a purely variadic function
+    # whose keys are false in a boolean test (0, '', b'', ()), equal arguments of different types under type-keeping keymaps
+    scenario_random(run, ALLALG, ['std', 'safe'], ['plain', 'dictarch', 'file'], 450 if t else 60, 24, variants=('builtin',),
+                    keymaps=[('str', True, False), ('hash-md5', True, False), ('pickle', True, False)])
+    scenario_random(run, ALLALG, ['std', 'safe'], ['plain', 'dictarch', 'file'], 450 if t else 60, 24, variants=('falsykey',),
+                    keymaps=[('raw', True, False), ('str', True, False)])
+    scenario_random(run, ALLALG, ['std', 'safe'], ['plain', 'dictarch', 'file'], 450 if t else 60, 24, nx=6, variants=('eqtypes',),
+                    keymaps=[('str', True, False), ('raw', True, True), ('pickle', True, False), ('hash-md5', True, True), ('str-repr', True, False)])
     # the same property on the key engine's catalogue of signatures, spellings, keymaps and callables (partials, methods,
     # functions sharing a code object): the returned value is compared with the function's own value for that call
     from . import key_checks
